@@ -620,10 +620,12 @@ func (s *Service) PutRetrieveTraffic(peer boson.Address, traffic *big.Int) error
 	chainTraffic := s.getTraffic(chainAddress)
 	chainTraffic.Lock()
 	chainTraffic.retrieveTraffic = new(big.Int).Add(chainTraffic.retrieveTraffic, traffic)
+	// persist while holding the lock: concurrent updates must reach the store in lock order
+	err := s.chequeStore.PutRetrieveTraffic(chainAddress, chainTraffic.retrieveTraffic)
 	chainTraffic.Unlock()
 	go s.PublishHeader()
 	go s.PublishTrafficCheque(chainAddress)
-	return s.chequeStore.PutRetrieveTraffic(chainAddress, chainTraffic.retrieveTraffic)
+	return err
 }
 
 func (s *Service) PutTransferTraffic(peer boson.Address, traffic *big.Int) error {
@@ -635,10 +637,12 @@ func (s *Service) PutTransferTraffic(peer boson.Address, traffic *big.Int) error
 	localTraffic := s.getTraffic(chainAddress)
 	localTraffic.Lock()
 	localTraffic.transferTraffic = new(big.Int).Add(localTraffic.transferTraffic, traffic)
+	// persist while holding the lock: concurrent updates must reach the store in lock order
+	err := s.chequeStore.PutTransferTraffic(chainAddress, localTraffic.transferTraffic)
 	localTraffic.Unlock()
 	go s.PublishHeader()
 	go s.PublishTrafficCheque(chainAddress)
-	return s.chequeStore.PutTransferTraffic(chainAddress, localTraffic.transferTraffic)
+	return err
 }
 
 // AvailableBalance Get actual available balance
